@@ -310,6 +310,8 @@ func c10Cond(c *Ctx, e ast.Expr) string {
 		return ".strNeEmptyTime"
 	case "InStaticAnalysis(context)":
 		return ".inStatic"
+	case "!constTime":
+		return ".notConstTime"
 	}
 	return "(.other " + leanStr(c10txt(c, e)) + ")"
 }
@@ -367,6 +369,13 @@ func c10Prog(c *Ctx, list []ast.Stmt) string {
 			}
 		}
 		op, ok := c10Op(t)
+		if es, isExpr := s.(*ast.ExprStmt); isExpr && !ok { // `context.GetMatch(<int>)` as a statement: a touch
+			if call, isCall := es.X.(*ast.CallExpr); isCall && c10txt(c, call.Fun) == "context.GetMatch" && len(call.Args) == 1 {
+				if k, isInt := IntLit(call.Args[0]); isInt {
+					op, ok = fmt.Sprintf("(.touch (%d))", k), true
+				}
+			}
+		}
 		if !ok {
 			op = "(.other " + leanStr(t) + ")"
 		}
